@@ -224,6 +224,13 @@ class Ctx:
             "known_findings_matched": [i.as_dict() for i, _ in known_hits],
             "inconclusive": len(incon),
         }
+        try:
+            from . import paths as _p, absint as _a
+            cov["analysis_volume"] = {"control_flow_paths_enumerated": _p.STATS["paths"], "path_enumerations": _p.STATS["functions"],
+                                      "abstract_interpretation_runs": _a.STATS["runs"], "abstract_states": _a.STATS["states"],
+                                      "abstract_transitions": _a.STATS["transitions"]}
+        except Exception:  # pragma: no cover
+            pass
         cov.update(self.extra)
         if error is not None:
             cov["analysis_error"] = str(error)
